@@ -30,10 +30,10 @@ CLAIMED = {
          "Small-step model of reloadMu, the served pointer, per-backend content generations and in-flight queries; visibility after return, failed reload = no-op, monotonicity and single-generation proved by invariant for all schedules (refuted with witnesses where the code really violates them: F5, F23, F24); schedules are replayed against the real FBDNSDB.",
          COMMON_NOTE + "Go memory model and scheduler outside the yield points are not modelled (C14).", "DESIGN.md section 6 C05"),
  "C06": ("Coq invariant over unbounded operation histories of the refcount/reload state machine; histories replayed on real db.DB / FBDNSDB with an instrumented backend",
-         "State machine of wrappers, refcounts, destroyable flags and the reload goroutine/timeout handshake; no use after close, no double close and no leak proved for every history by induction; event logs of an instrumented DBI driven through the real code are compared with the model.",
+         "State machine of wrappers, refcounts, destroyable flags and the reload goroutine/timeout handshake; no use after close, no double close and no leak proved for every history by induction; event logs of an instrumented DBI driven through the real code are compared with the model. A small-step model with reloadMu as an explicit component (Model/ReloadLock.v) carries the same safety for every thread schedule, with witness schedules refuting the variants without the lock; operations attempted inside a reload, free-running release/retirement races and real queries through the cache-enabled handler are part of the histories.",
          COMMON_NOTE, "DESIGN.md section 6 C06"),
  "C07": ("Coq theorems: builder, batch and CDB pipelines are permutation-invariant and lossless (parametric in the codec); dumps of real compilations under a grid of settings vs. the line-by-line codec",
-         "Pipelines modelled parametric in the codec; losslessness and setting-independence proved for every stream order, batch order and sorted permutation; real compilations under many settings are dumped and compared with each other, with the implementation's own codec output and with the pipeline model.",
+         "Pipelines modelled parametric in the codec; losslessness and setting-independence proved for every stream order, batch order and sorted permutation; real compilations under many settings are dumped and compared with each other, with the implementation's own codec output and with the pipeline model. The line reader (bufio.ScanLines, leading blanks, comments) is a Coq model too, so the file-level theorems quantify over the bytes of the data file.",
          COMMON_NOTE + "RocksDB ingest / WriteBatch atomicity trusted.", "DESIGN.md section 6 C07"),
  "C08": ("Coq multiset algebra: apply_diff (compile A) d = compile B for every line diff in any order; all-or-nothing on failure; real ApplyDiff vs fresh compile dumps",
          "apply_diff modelled over the batch model; equality with recompilation, chains and failure atomicity proved; real rdb.ApplyDiff runs on generated file pairs and chains are dumped and compared with fresh compiles and with the model.",
@@ -54,10 +54,10 @@ CLAIMED = {
          "Every index/slice expression of the serve path is modelled with an explicit Panic outcome; absence of Panic and reply shape (ID, question, QR, BADVERS) proved for all queries; generated wire-valid messages run against real handlers with panic recording.",
          COMMON_NOTE + "Packing/truncation by miekg/coredns trusted; open finding F22 (BADVERS reply without question).", "DESIGN.md section 6 C13"),
  "C14": ("Coq lockset theorem over an access table REGENERATED from the Go source on every run (translator gotab); iterator-pool interleaving model; race-detector stress harness for witnesses",
-         "Every pair of conflicting accesses of tracked shared fields by concurrent roles holds a common lock, is channel-ordered or is a listed exception - proved by vm_compute over the regenerated finite table; pool conservation and progress by invariant; a -race stress run supplies concrete schedules.",
+         "Every pair of conflicting accesses of tracked shared fields and of package-level variables by concurrent roles holds a common lock, is channel-ordered or is a listed exception - proved by vm_compute over the regenerated finite table; pool conservation and progress by invariant; a -race stress run supplies concrete schedules.",
          COMMON_NOTE + "Partial by nature: lockset discipline is sufficient not necessary; Go memory model, cgo/RocksDB internals not modelled.", "DESIGN.md section 6 C14"),
  "C15": ("Coq refinement of the value-list codec and batch execution to a map of lists, for all histories; real RocksDB histories vs model vs spec",
-         "append/del/chunk codec and execute_batch modelled as written; refinement to key -> list of values, batch = adds then dels, failed batch = no-op proved for every history and every sorted permutation; histories run on a real RocksDB directory.",
+         "append/del/chunk codec and execute_batch modelled as written; refinement to key -> list of values, batch = adds then dels, failed batch = no-op proved for every history and every sorted permutation; histories run on a real RocksDB directory, with session boundaries (close and re-open) and backups accumulating in one backup directory; a restore yields the latest snapshot (C15_backup_restore_yields_latest_backup).",
          COMMON_NOTE + "RocksDB Get/WriteBatch/backup engine trusted.", "DESIGN.md section 6 C15"),
  "C16": ("Coq linear-probing invariant for any hash function: lookups return exactly the written values in order; dump/make round trip; real writer/reader/Dump/Make",
          "CDB writer, reader (loop counter), dump and make modelled parametric in the hash; exact lookup proved for all pair lists under fits32 and ANY hash (collisions, wrap-around); real files compared byte-wise and lookup-wise.",
